@@ -12,6 +12,8 @@
             | 0  /  1 opt(key) opt(sig)                    prost: NoiseHandshakePayload::decode
             | 0 (n/a)  /  1 (refused)  /  2 type L data    prost: keys_proto::PublicKey::decode
             | 0 (n/a)  /  1 class [L key]                  RemotePublicKey::from_protobuf_encoding
+            | 0 (n/a)  /  1 1 (refused) / 1 0 L key L id   the reference: libp2p-identity 0.2.14
+                                                           PublicKey::try_decode_protobuf + to_peer_id
             | 99 (n/a) /  class [L id]                     parse_and_verify_peer_id (hook)
             | class [L id]                                 handshake() on the victim's side
             | miss                                         1 = an oracle table lacks a needed entry
@@ -19,12 +21,37 @@
      case   2 6 seed tkind midx pos mask frag | L idD | L idL
             | L sent1 | L sent2 | L sent3                  frames as written by the honest sides
             | L deliveredDL | L deliveredLD                byte streams handed to the readers
+            | L early_written                              what the dialer's application wrote right
+                                                           after its handshake returned (7th parameter)
      trace  2 | sent2? sent3? | class [L id] (dialer) | class [L id] (listener)
+            | L early_delivered                            what the listener's application could read
+   kind 6 (two complete Litep2p nodes, public API, TCP or WebSocket, right / wrong peer id dialed):
+     case   6 3 seed transport mode | L idD | L idL | opt(dialed by D)
+     trace  6 | class [L id] (dialer's event) | class [L id] (listener; 12 = no connection reported)
    kind 5 (the rogue peer of kind 1 against negotiate_connection over loopback TCP, with a
    dialed-peer expectation; the rogue also completes the yamux negotiation):
      case   5 5 seed role fkind variant dmode | L payload | L remote_static | opt(dialed)
             | curve table | ed25519 table                  as in kind 1
      trace  5 | class [L id] | miss
+   kind 7 (extra stream, harness_c01x: the TLS certificate checks of the QUIC transport on crafted
+   certificates; class 13 = BadDer, 14 = ExtensionValueInvalid, 5 = UnknownIssuer, 8 = wrong peer,
+   15 = UnsupportedCriticalExtension); the certificate's extensions in order:
+     case   7 n params.. | n x (0 other OID, not critical / 1 other OID, critical /
+                                2 libp2p OID, not a SignedKey / 3 L key L sig libp2p OID)
+            | L spki | intermediates | opt(expected) | curve table | ed25519 table
+     trace  7 | class [L id] (verify_server_cert) | class [L id] (verify_client_cert) | miss
+   kind 9 (the real TransportManager over a scripted transport: dial_address to `dialed`, then the
+   transport reports ConnectionEstablished for `reported`; mode 2: an inbound connection):
+     case   9 3 seed transport mode | opt(dialed) | L reported
+     trace  9 | 0 L id (next() yields ConnectionEstablished, transport.accept called) / 8 (refused:
+                transport.reject, or the debug assertion of a debug build)
+   kind 8 (extra stream: NoiseContext::with_prologue + get_remote_peer_id, the WebRTC caller,
+   against a snow responder; the two prologues are computed from fingerprints by each side):
+     case   8 n params.. | L payload | L remote_static | L prologue_litep2p | L prologue_remote
+            | short prefix extra                           the reply handed to get_remote_peer_id: cut to one
+                                                           byte? / the two-byte prefix / bytes appended
+            | curve table | ed25519 table
+     trace  8 | class [L id] | miss
    kind 4 (negotiate_connection over loopback TCP, honest peers):
      case   4 3 seed modeD modeL | L idD | L idL | opt(dialed by D) | opt(dialed by L)
      trace  4 | class [L id] (dialer) | class [L id] (listener)
@@ -51,6 +78,14 @@ Definition pOpt : parser (option (list N)) :=
 Definition eOpt (o : option bytes) : list N :=
   match o with None => [0] | Some b => 1 :: eL b end.
 
+(* class [L id], returned as the numbers themselves *)
+Definition p_res_raw : parser (list N) :=
+  let* c := pN in
+  match c with
+  | 0 => let* b := pL in pret (0 :: eL b)
+  | _ => pret [c]
+  end.
+
 Definition id_bytes (k : bytes) : bytes := V.C18.Model.to_bytes (peer_id_of_key k).
 
 (* ---------------------------------------------------------------- observable classes *)
@@ -58,6 +93,7 @@ Definition err_class (e : err) : N :=
   match e with
   | EPayload => 3 | EKeyMissing => 4 | EKeyProto => 3 | EKeyType => 6 | EKeyInvalid => 7
   | ESigMissing => 5 | ESigBad => 5 | EMismatch => 8
+  | ETlsNoExt => 13 | ETlsExtValue => 14 | ETlsIssuer => 5 | ETlsCritical => 15
   end.
 
 Definition enc_result (r : result) : list N :=
@@ -82,11 +118,20 @@ Record k1 := mkK1 {
 }.
 Record k2 := mkK2 {
   k2_idD : bytes; k2_idL : bytes; k2_s1 : bytes; k2_s2 : bytes; k2_s3 : bytes;
-  k2_dDL : bytes; k2_dLD : bytes
+  k2_dDL : bytes; k2_dLD : bytes; k2_early : bytes
 }.
 Record k4 := mkK4 { k4_idD : bytes; k4_idL : bytes; k4_dD : option bytes; k4_dL : option bytes }.
 
-Inductive case := C1 (c : k1) | C2 (c : k2) | C4 (c : k4) | C5 (c : k1).
+Record k7 := mkK7 {
+  k7_ext : list xext; k7_spki : bytes; k7_inter : N; k7_exp : option bytes;
+  k7_curve : list (bytes * bool); k7_ver : list (bytes * bytes * bytes * bool)
+}.
+Record k8 := mkK8 { k8_c : k1; k8_proI : bytes; k8_proR : bytes; k8_short : bool; k8_prefix : N; k8_extra : N }.
+Record k9 := mkK9 { k9_dialed : option bytes; k9_reported : bytes }.
+
+Inductive case :=
+| C1 (c : k1) | C2 (c : k2) | C4 (c : k4) | C5 (c : k1) | C6 (c : k4) | C7 (c : k7) | C8 (c : k8)
+| C9 (c : k9).
 
 Definition p_params : parser unit :=
   let* n := pN in let* _ := prep (N.to_nat (N.min n 16)) pN in pret tt.
@@ -94,6 +139,16 @@ Definition p_params : parser unit :=
 Definition p_curve : parser (bytes * bool) := let* k := pL in let* b := pBool in pret (k, b).
 Definition p_ver : parser (bytes * bytes * bytes * bool) :=
   let* k := pL in let* m := pL in let* s := pL in let* b := pBool in pret (k, m, s, b).
+
+Definition p_xext : parser xext :=
+  let* t := pN in
+  match t with
+  | 0 => pret (XOther false)
+  | 1 => pret (XOther true)
+  | 2 => pret (XP2p None)
+  | 3 => let* k := pL in let* sg := pL in pret (XP2p (Some (k, sg)))
+  | _ => pfail
+  end.
 
 Definition p_case : parser case :=
   let* kind := pN in
@@ -105,7 +160,17 @@ Definition p_case : parser case :=
          let* cv := plist p_curve in let* vt := plist p_ver in
          pret (C5 (mkK1 pb rs d cv vt))
   | 2 => let* a := pL in let* b := pL in let* s1 := pL in let* s2 := pL in let* s3 := pL in
-         let* d1 := pL in let* d2 := pL in pret (C2 (mkK2 a b s1 s2 s3 d1 d2))
+         let* d1 := pL in let* d2 := pL in let* ew := pL in pret (C2 (mkK2 a b s1 s2 s3 d1 d2 ew))
+  | 6 => let* a := pL in let* b := pL in let* x := pOpt in pret (C6 (mkK4 a b x None))
+  | 7 => let* x := plist p_xext in
+         let* spki := pL in let* n := pN in let* e := pOpt in
+         let* cv := plist p_curve in let* vt := plist p_ver in
+         pret (C7 (mkK7 x spki n e cv vt))
+  | 9 => let* d := pOpt in let* r := pL in pret (C9 (mkK9 d r))
+  | 8 => let* pb := pL in let* rs := pL in let* pi := pL in let* pr := pL in
+         let* sh := pBool in let* px := pN in let* ex := pN in
+         let* cv := plist p_curve in let* vt := plist p_ver in
+         pret (C8 (mkK8 (mkK1 pb rs None cv vt) pi pr sh px ex))
   | 4 => let* a := pL in let* b := pL in let* x := pOpt in let* y := pOpt in
          pret (C4 (mkK4 a b x y))
   | _ => pfail
@@ -124,8 +189,22 @@ Definition well_formed (c : case) : bool :=
   | C2 c =>
       bytes_ok (k2_idD c) && bytes_ok (k2_idL c) && (len (k2_idD c) =? 32) &&
       (len (k2_idL c) =? 32) && bytes_ok (k2_s1 c) && bytes_ok (k2_s2 c) && bytes_ok (k2_s3 c) &&
-      bytes_ok (k2_dDL c) && bytes_ok (k2_dLD c)
-  | C4 c =>
+      bytes_ok (k2_dDL c) && bytes_ok (k2_dLD c) && bytes_ok (k2_early c)
+  | C7 c =>
+      forallb (fun x => match x with XP2p (Some (k, sg)) => bytes_ok k && bytes_ok sg | _ => true end)
+              (k7_ext c) &&
+      bytes_ok (k7_spki c) && obytes_ok (k7_exp c) &&
+      forallb (fun e => bytes_ok (fst e)) (k7_curve c) &&
+      forallb (fun e => match e with (k, m, s, _) => bytes_ok k && bytes_ok m && bytes_ok s end)
+              (k7_ver c)
+  | C8 c =>
+      bytes_ok (k1_pb (k8_c c)) && bytes_ok (k1_rs (k8_c c)) && bytes_ok (k8_proI c) &&
+      bytes_ok (k8_proR c) &&
+      forallb (fun e => bytes_ok (fst e)) (k1_curve (k8_c c)) &&
+      forallb (fun e => match e with (k, m, s, _) => bytes_ok k && bytes_ok m && bytes_ok s end)
+              (k1_ver (k8_c c))
+  | C9 c => obytes_ok (k9_dialed c) && bytes_ok (k9_reported c)
+  | C4 c | C6 c =>
       bytes_ok (k4_idD c) && bytes_ok (k4_idL c) && (len (k4_idD c) =? 32) &&
       (len (k4_idL c) =? 32) && obytes_ok (k4_dD c) && obytes_ok (k4_dL c)
   end.
@@ -194,31 +273,27 @@ Definition run1 (c : k1) : list N :=
   let vf := verify_of c in
   1 :: eL DOMAIN ++
   (match decode_payload (k1_pb c) with
-   | None => [0; 0; 0; 99]
+   | None => [0; 0; 0; 0; 99]
    | Some p =>
        1 :: eOpt (p_key p) ++ eOpt (p_sig p) ++
        (match p_key p with
-        | None => [0; 0]
+        | None => [0; 0; 0]
         | Some kb =>
             (match decode_keymsg kb with
              | None => [1]
              | Some m => 2 :: k_type m :: eL (k_data m)
-             end) ++ enc_keyres (decode_pubkey oc kb)
+             end) ++ enc_keyres (decode_pubkey oc kb) ++
+            (* the reference admits exactly the same key blobs, with the same key and id *)
+            (match decode_pubkey oc kb with
+             | KeyOk k => 1 :: 0 :: eL k ++ eL (id_bytes k)
+             | KeyErr _ => [1; 1]
+             end)
         end) ++ enc_result (verify_payload oc vf p (k1_rs c))
    end) ++
   enc_result (verify_identity oc vf (k1_pb c) (k1_rs c)) ++ [b2n (k1_miss c)].
 
 (* ---------------------------------------------------------------- kinds 2 and 4 *)
 Definition sub (a b : nat) (l : bytes) : bytes := firstn (b - a) (skipn a l).
-
-(* NoiseContext::read_handshake_message: u16 length, then that many bytes *)
-Definition read_frame (s : bytes) : option (bytes * bytes) :=
-  match s with
-  | hi :: lo :: r =>
-      let n := N.to_nat (hi * 256 + lo) in
-      if (length r <? n)%nat then None else Some (firstn n r, skipn n r)
-  | _ => None
-  end.
 
 Definition is_nil (b : bytes) : bool := match b with [] => true | _ => false end.
 
@@ -247,9 +322,9 @@ Definition dh_i (eD eL : bytes) (x : N) (P : bytes) : bytes :=
 Definition all_curve (_ : bytes) : bool := true.
 
 Definition mk_dialer (eD eL idD : bytes) (dialed : option pid) : party :=
-  mkParty 1 3 (honest_payload sign_ideal idD (pubk_i eD eL 3)) dialed.
+  mkParty 1 3 (honest_payload sign_ideal idD (pubk_i eD eL 3)) dialed [].
 Definition mk_listener (eD eL idL : bytes) (dialed : option pid) : party :=
-  mkParty 2 4 (honest_payload sign_ideal idL (pubk_i eD eL 4)) dialed.
+  mkParty 2 4 (honest_payload sign_ideal idL (pubk_i eD eL 4)) dialed [].
 
 Fixpoint ct_of (tab : list (bytes * ct)) (b : bytes) : ct :=
   match tab with
@@ -312,7 +387,8 @@ Definition run2_model (c : k2) : k2out :=
 
 Definition run2 (c : k2) : list N :=
   let o := run2_model c in
-  2 :: b2n (o_s2 o) :: b2n (o_s3 o) :: enc_outcome (o_D o) ++ enc_outcome (o_L o).
+  2 :: b2n (o_s2 o) :: b2n (o_s3 o) :: enc_outcome (o_D o) ++ enc_outcome (o_L o) ++
+  eL (match o_L o with OAccept _ => k2_early c | _ => [] end).
 
 Definition dialed_pid (o : option bytes) : option (option pid) :=
   match o with
@@ -354,12 +430,98 @@ Definition run5 (c : k1) : list N :=
   | None => [0]
   end.
 
+(* kind 7: the TLS certificate decision *)
+Definition ext_miss (c : k7) (x : xext) : bool :=
+  match x with
+  | XP2p (Some (kb, sg)) =>
+      match decode_keymsg kb with
+      | Some m =>
+          if (k_type m =? 1) && (len (k_data m) =? 32) then
+            match look_curve (k7_curve c) (k_data m) with
+            | None => true
+            | Some false => false
+            | Some true =>
+                match look_ver (k7_ver c) (k_data m) (TLS_PREFIX ++ k7_spki c) sg with
+                | None => true
+                | Some _ => false
+                end
+            end
+          else false
+      | None => false
+      end
+  | _ => false
+  end.
+Definition k7_miss (c : k7) : bool := existsb (ext_miss c) (k7_ext c).
+
+Definition run7 (c : k7) : list N :=
+  let oc := fun k => match look_curve (k7_curve c) k with Some b => b | None => false end in
+  let vf := fun k m s => match look_ver (k7_ver c) k m s with Some b => b | None => false end in
+  match dialed_pid (k7_exp c) with
+  | Some e =>
+      if 0 <? k7_inter c then [7; 10; 10; 0]     (* "libp2p-tls requires exactly one certificate" *)
+      else
+        7 :: enc_result (tls_accept oc vf (k7_ext c) (k7_spki c) e) ++
+        enc_result (tls_accept oc vf (k7_ext c) (k7_spki c) None) ++ [b2n (k7_miss c)]
+  | None => [0]
+  end.
+
+(* kind 9: the manager's comparison behind every transport *)
+Definition run9 (c : k9) : list N :=
+  match dialed_pid (k9_dialed c), V.C18.Model.of_bytes (k9_reported c) with
+  | Some d, Some r => 9 :: enc_result (manager_check d (Accept r))
+  | _, _ => [0]
+  end.
+
+(* kind 8: the WebRTC caller — litep2p is the Noise initiator with its prologue, the remote a
+   responder with its own; run through the symbolic transcript with the real payload bytes, the
+   real remote static key and the real ed25519 verdicts *)
+Definition name_of_f (pk : N -> bytes) (P : bytes) : option N :=
+  if beq P (pk 1) then Some 1 else if beq P (pk 2) then Some 2
+  else if beq P (pk 3) then Some 3 else if beq P (pk 4) then Some 4 else None.
+Definition dh_f (pk : N -> bytes) (x : N) (P : bytes) : bytes :=
+  match name_of_f pk P with
+  | Some y => [0; N.min x y; N.max x y]
+  | None => 1 :: x :: P
+  end.
+
+Definition run8 (c : k8) : list N :=
+  let k := k8_c c in
+  let eD := repeat 1 32 in
+  let eLr := repeat 2 32 in
+  let pk := fun x => if x =? 4 then k1_rs k else pubk_i eD eLr x in
+  let dhf := dh_f pk in
+  let D := mkParty 1 3 [] None (k8_proI c) in
+  let L := mkParty 2 4 (k1_pb k) None (k8_proR c) in
+  let a2 := DMsg (l_msg2 H_inst KDF_inst pk dhf L (d_msg1 pk D)) in
+  let '(_, oD) := d_run (curve_of k) (verify_of k) H_inst KDF_inst pk dhf D a2 in
+  (* get_remote_peer_id: a reply of fewer than two bytes is InvalidReplyLength (class 10); the
+     two-byte prefix only sizes the output buffer (too small for the payload: snow refuses) and
+     ALL the bytes behind it are the Noise message (anything appended breaks the last tag) *)
+  if k8_short c then [8; 10; b2n (k1_miss k)]
+  else if (k8_prefix c <? len (k1_pb k)) || (0 <? k8_extra c) then [8; 2; b2n (k1_miss k)]
+  else 8 :: enc_outcome oD ++ [b2n (k1_miss k)].
+
+(* the public API: the listener reports nothing unless the connection was established *)
+Definition run6 (c : k4) : list N :=
+  match run4 c with
+  | 4 :: rest =>
+      match pall (let* a := p_res_raw in let* b := p_res_raw in pret (a, b)) rest with
+      | Some (a, b) => 6 :: a ++ (match b with [11] => [12] | _ => b end)
+      | None => [0]
+      end
+  | _ => [0]
+  end.
+
 Definition run_case (l : list N) : list N :=
   match decode_case l with
   | Some (C1 c) => run1 c
   | Some (C5 c) => run5 c
   | Some (C2 c) => run2 c
   | Some (C4 c) => run4 c
+  | Some (C6 c) => run6 c
+  | Some (C7 c) => run7 c
+  | Some (C8 c) => run8 c
+  | Some (C9 c) => run9 c
   | None => [0]
   end.
 
@@ -374,20 +536,36 @@ Definition p_res : parser (N * bytes) :=
 
 (* kind 1: the parts of the trace that the property speaks about: the hook's and the
    handshake's verdict *)
-Definition p_trace1 : parser ((N * bytes) * (N * bytes)) :=
+(* admission of the key blob: litep2p's verdict (accepted key) and the reference's (key, id) *)
+Definition p_trace1 :
+  parser ((N * bytes) * (N * bytes) * (option bytes * option (bytes * bytes))) :=
   let* _ := pL in
   let* pd := pN in
   let* _ := (if pd =? 1 then let* _ := pOpt in let* _ := pOpt in pret tt else pret tt) in
   let* km := pN in
   let* _ := (if km =? 2 then let* _ := pN in let* _ := pL in pret tt else pret tt) in
   let* kd := pN in
-  let* _ := (if kd =? 1 then
-               let* c := pN in if c =? 0 then let* _ := pL in pret tt else pret tt
-             else pret tt) in
+  let* mine := (if kd =? 1 then
+                  let* c := pN in if c =? 0 then let* k := pL in pret (Some k) else pret None
+                else pret None) in
+  let* rf := pN in
+  let* theirs := (if rf =? 1 then
+                    let* c := pN in
+                    if c =? 0 then let* k := pL in let* i := pL in pret (Some (k, i)) else pret None
+                  else pret None) in
   let* hook := p_res in
   let* hs := p_res in
   let* _ := pN in
-  pret (hook, hs).
+  pret (hook, hs, (mine, theirs)).
+
+(* the exact set of accepted identity_key encodings is the reference's: same verdict, same key,
+   and the reference's peer id is the id derived from that key *)
+Definition admission_agrees (x : option bytes * option (bytes * bytes)) : bool :=
+  match x with
+  | (None, None) => true
+  | (Some k, Some (k', i)) => beq k k' && beq i (id_bytes k)
+  | _ => false
+  end.
 
 (* is `p` a contiguous piece of `l`? *)
 Fixpoint is_prefix (p l : bytes) : bool :=
@@ -415,7 +593,10 @@ Definition ok_res1 (c : k1) (r : N * bytes) : bool :=
 
 Definition prefix_eqb (p l : bytes) : bool := beq p (firstn (length p) l).
 
-Definition prop2 (c : k2) (rD rL : N * bytes) : bool :=
+Definition prop2 (c : k2) (rD rL : N * bytes) (early_delivered : bytes) : bool :=
+  (* early data: nothing reaches the listener's application unless its handshake accepted, and
+     then only what the dialer's application wrote, in order *)
+  (if fst rL =? 0 then prefix_eqb early_delivered (k2_early c) else is_nil early_delivered) &&
   (* the bytes the two handshakes consumed are the bytes that were sent (what follows the last
      handshake frame of a direction belongs to the transport phase, property C02) *)
   let untampered :=
@@ -451,7 +632,7 @@ Definition prop_ok (case trace : list N) : bool :=
       match trace with
       | 1 :: rest =>
           match pall p_trace1 rest with
-          | Some (hook, hs) => ok_res1 c hook && ok_res1 c hs
+          | Some (hook, hs, adm) => ok_res1 c hook && ok_res1 c hs && admission_agrees adm
           | None => false
           end
       | _ => false
@@ -459,8 +640,8 @@ Definition prop_ok (case trace : list N) : bool :=
   | Some (C2 c) =>
       match trace with
       | 2 :: _ :: _ :: rest =>
-          match pall (let* a := p_res in let* b := p_res in pret (a, b)) rest with
-          | Some (rD, rL) => prop2 c rD rL
+          match pall (let* a := p_res in let* b := p_res in let* e := pL in pret (a, b, e)) rest with
+          | Some (rD, rL, e) => prop2 c rD rL e
           | None => false
           end
       | _ => false
@@ -470,6 +651,62 @@ Definition prop_ok (case trace : list N) : bool :=
       | 5 :: rest =>
           match pall (let* a := p_res in let* _ := pN in pret a) rest with
           | Some r => ok_res1 c r && (if fst r =? 0 then dialed_ok (k1_dialed c) (snd r) else true)
+          | None => false
+          end
+      | _ => false
+      end
+  | Some (C7 c) =>
+      match trace with
+      | 7 :: rest =>
+          match pall (let* a := p_res in let* b := p_res in let* _ := pN in pret (a, b)) rest with
+          | Some (rS, rC) =>
+              (* a real ed25519 verdict `true` for a key with id P over P2P_SIGNING_PREFIX ++ the
+                 certificate's SPKI, key and signature being those of a libp2p extension of the
+                 certificate; that extension is the only one with the libp2p OID and no other
+                 extension is critical *)
+              let auth := fun P =>
+                existsb (fun x => match x with
+                                  | XP2p (Some (kb, sg)) =>
+                                      existsb (fun e => match e with
+                                                        | (k, m, sg', ok) =>
+                                                            ok && beq m (TLS_PREFIX ++ k7_spki c) &&
+                                                            beq (id_bytes k) P && infix k kb && beq sg' sg
+                                                        end) (k7_ver c)
+                                  | _ => false
+                                  end) (k7_ext c) &&
+                (length (filter (fun x => match x with XP2p _ => true | _ => false end) (k7_ext c)) =? 1)%nat &&
+                negb (existsb (fun x => match x with XOther true => true | _ => false end) (k7_ext c)) in
+              (if fst rS =? 0 then auth (snd rS) && dialed_ok (k7_exp c) (snd rS) && (k7_inter c =? 0)
+               else true) &&
+              (if fst rC =? 0 then auth (snd rC) && (k7_inter c =? 0) else true)
+          | None => false
+          end
+      | _ => false
+      end
+  | Some (C8 c) =>
+      match trace with
+      | 8 :: rest =>
+          match pall (let* a := p_res in let* _ := pN in pret a) rest with
+          | Some r =>
+              if fst r =? 0 then authentic (k8_c c) (snd r) && beq (k8_proI c) (k8_proR c) else true
+          | None => false
+          end
+      | _ => false
+      end
+  | Some (C9 c) =>
+      match trace with
+      | 9 :: rest =>
+          match pall p_res rest with
+          | Some r => if fst r =? 0 then beq (snd r) (k9_reported c) && dialed_ok (k9_dialed c) (snd r) else true
+          | None => false
+          end
+      | _ => false
+      end
+  | Some (C6 c) =>
+      match trace with
+      | 6 :: rest =>
+          match pall (let* a := p_res in let* b := p_res in pret (a, b)) rest with
+          | Some (rD, rL) => prop4 c rD rL
           | None => false
           end
       | _ => false
